@@ -1,6 +1,9 @@
 mod c04;
 mod fx;
 mod model;
+mod oracle;
+mod ph;
+mod sess;
 mod ffi;
 mod tables;
 mod util;
@@ -44,6 +47,9 @@ fn main() {
             ];
             let rep = match name {
                 "c04" => c04::run(&tier, seed, &a["meta"], &layouts),
+                "ph0" => ph::ph0(&tier, seed, &a["meta"]),
+                "fs0" => ph::fs0(&tier, seed, &a["meta"]),
+                "c18" => ph::c18(&tier, seed, &a["meta"]),
                 "c12" => fx::c12(&tier, seed, &a["meta"]),
                 "c13" => fx::c13(&tier, seed, &a["meta"]),
                 "c14" => fx::c14(&tier, seed, &a["meta"]),
